@@ -5,7 +5,7 @@ from vlib.scn import Scenario, h
 
 ID = "C04"
 LEAN_MODULES = ["Econf.Props.C04"]
-THEOREMS = []
+THEOREMS = ["Econf.C04_read_total", "Econf.C04_line_total", "Econf.C04_split_lossless", "Econf.parseLine_err"]
 SHRINK = False
 RULE = ("three input streams under ASan+UBSan with a per-scenario timeout: (1) all byte strings up to the tier's length over "
         "{a = space # [ ] \" newline} and random strings over a wider alphabet incl. NUL, tab, 0x80, ';'; (2) conventional documents "
